@@ -198,6 +198,16 @@ def evaluate(d, route, seed, npoints=2, numeric=True, lambda_backend=True):
         tw.parameters = {p: float(ptw[p]) for p in d["params"]}
         xx = np.array([float(ptw[s0]) for s0 in d["states"]])
         tw.ode(xx, float(ptw["t"])); tw.eventRateVector(xx, float(ptw["t"]))
+    elif len(d["params"]) >= 2 and seed % 3 == 0:
+        # another model in the same process with the SAME equations and the parameters declared in the opposite order, built and
+        # evaluated first (a routine compiled for one argument order must not serve the other)
+        tw, _ = mg.build(dict(d, params=list(reversed(d["params"]))), route=route, rng=np.random.default_rng(seed), lambda_backend=lambda_backend)
+        ptw = mg.random_point(np.random.default_rng(seed + 1), d)
+        tw.parameters = {p: float(ptw[p]) for p in d["params"]}
+        xx = np.array([float(ptw[s0]) for s0 in d["states"]])
+        tw.ode(xx, float(ptw["t"]))
+        if d["events"]:
+            tw.eventRateVector(xx, float(ptw["t"])); tw.vMat(xx, float(ptw["t"]))
     # every other case: the definition objects first go into a model that is thrown away (a definition can be reused)
     m, order = mg.build(d, route=route, rng=rng, lambda_backend=lambda_backend, reuse=bool(seed % 2 == 0))
     res, finding = [], None
@@ -280,6 +290,12 @@ CORPUS = [
           odes=[dict(state=1, eqn="-fmu")],
           events=[dict(rate="fbeta", kind="periodic", trans=[dict(ty="B", o=None, d=0, mag="1")]),
                   dict(rate="gamma*S", kind="linear", trans=[dict(ty="T", o=0, d=1, mag="fmu")])]), "event"),
+    # two legacy transitions with the same end points and the same rate (one of them moves two at a time): two processes
+    (dict(states=["S", "I"], params=["beta", "gamma"], derived=[], decl="list", odes=[],
+          events=[dict(rate="beta*S", kind="linear", trans=[dict(ty="T", o=0, d=1, mag="1")]),
+                  dict(rate="beta*S", kind="linear", trans=[dict(ty="T", o=0, d=1, mag="2")]),
+                  dict(rate="gamma*I", kind="linear", trans=[dict(ty="T", o=1, d=0, mag="1")]),
+                  dict(rate="gamma*I", kind="linear", trans=[dict(ty="T", o=1, d=0, mag="1")])]), "legacy"),
     # a single birth process and a single explicit ODE term: the constructor is given the objects themselves now and then
     (dict(states=["S", "I"], params=["beta", "gamma"], derived=[], decl="list", odes=[dict(state=1, eqn="-gamma*I")], _bare=True,
           events=[dict(rate="beta*S", kind="linear", trans=[dict(ty="T", o=0, d=1, mag="1")]),
